@@ -1,4 +1,5 @@
 import Httpcache.Proofs.Validation
+import Httpcache.Proofs.StoreContent
 /-
 C06 — Responses that must not be stored never reach the store.
 
@@ -179,5 +180,32 @@ example : canStoreResponse
         [(sCacheControl, str% "must-understand, max-age=3600")]))
     [] (parseCC (updateStoredHeaders (Header.del [(sCacheControl, str% "max-age=0"), (sETag, str% "\"a\"")] sAge)
         [(sCacheControl, str% "must-understand, max-age=3600")])) = false := by decide
+
+/-- What the store HOLDS, for every history. Starting from an empty store, after any sequence of foreground
+    exchanges and background revalidations — any requests, clocks and origin answers, writes failing or not —
+    in which every entry a program reads is the one the store held when it started (`ReachableEntries`), every
+    stored response has a final status (200–599) that is neither 206 nor 304. So no 1xx, no partial response and
+    no 304 is ever in the store, hence none is ever served from it: "good in ⇒ good out" holds for the
+    foreground exchange (`foreground_good`, over all three paths) and for the background revalidation
+    (`background_good`), and a freshening write keeps the status of the entry it read. -/
+theorem store_holds_only_final_full_responses (kv : Str → Option Entry) (h : ReachableEntries kv) :
+    ∀ k e, kv k = some e → 200 ≤ e.resp.status ∧ e.resp.status < 600 ∧ e.resp.status ≠ 206 ∧ e.resp.status ≠ 304 :=
+  reachable_entries_good kv h
+
+/-- non-vacuity: a miss that stores a 200 is a step of `ReachableEntries`, and the store then holds that entry -/
+example : ∃ kv, ReachableEntries kv ∧ ∃ k e, kv k = some e ∧ e.resp.status = 200 := by
+  let env : Env := { refs := fun _ => none, entry := fun _ => none, setEntry := fun _ _ => true, setRefs := fun _ _ => true,
+                     origin := fun _ _ _ => .resp { status := 200, header := [(sCacheControl, str% "max-age=60")], body := [] } 0 true }
+  let cfg : Cfg := { glue := ⟨fun _ => none⟩, normQ := fun _ v => v, loc := fun _ => none, swrTimeout := 1 }
+  let req : Req := { method := sGET, scheme := str% "http", host := str% "a", path := str% "/", query := [], opaq := [], header := [] }
+  refine ⟨applyEntryTrace (fun _ => none) (exec env (roundTrip cfg 0 req)).1,
+    .foreground cfg 0 req _ _ .empty (exec_runs env _) ?_, (str% "http://a/#0"), ?_⟩
+  · intro id e0 hm
+    exfalso
+    have : (exec env (roundTrip cfg 0 req)).1.all (fun st => match st with | .getEntry _ (some _) => false | _ => true) = true := by
+      decide +kernel
+    have := List.all_eq_true.mp this _ hm
+    simp at this
+  · decide +kernel
 
 end Httpcache.C06
